@@ -157,6 +157,18 @@ def run(ck, prog, ctx):
             else:
                 ck.ob("ORDER", "decoder/" + kind, okk, "%s decodes, propagates and stores %s records%s" % (nm, kind, "" if okk else ": " + "; ".join(why)), where=db.where())
 
+    # every record of a collection goes into its section: the section loops of the writer iterate their collection as it is (no
+    # selecting adaptor: a filter on the writer side silently drops records the reader cannot miss)
+    from engines import for_loops as _for_loops, chain_filters as _chain_filters, check_every_element as _check_every
+    if ab is not None:
+        pvc_ = Prov(prog, inline=False, bind_closures=False)
+        for i, lp in enumerate(_for_loops(ab)):
+            fl = _chain_filters(ab, pvc_, lp["iter"])
+            steps = {bi for bi, t in ab.calls() if bi in lp["blocks"] and t.callee.method in ("append", "extend_from_slice", "extend", "push")}
+            ck.ob("ORDER", "writer-loop/%d/unfiltered" % i, not fl, "the section loop at line %s serialises %s" % (lp["line"], "every record of its collection" if not fl else "only the records that pass `%s`: the others are missing from the file" % ", ".join(fl)), where=ab.where(lp["line"]))
+            if steps:
+                _check_every(ck, "ORDER", "writer-loop/%d" % i, ab, lp, steps, "append the record's bytes", "the records of the section")
+
     check_complete_iteration(ck, "ORDER", prog, [codec.ONT + "as_bytes", "term::internal::HpoTermInternal::parents_as_byte", "term::group::HpoGroup::as_bytes", "ontology::builder::Builder::<ontology::builder::AllTerms>::add_parent_from_bytes", "ontology::builder::Builder::<ontology::builder::LooseCollection>::add_terms_from_bytes"], "the records of a section")
 
     if ab is not None:
